@@ -1,11 +1,12 @@
 #!/usr/bin/env python3
-"""Mini translator: a small subset of Rust expressions / function bodies -> Lean 4 over Nat.
+"""Mini translator: a subset of Rust expressions / function bodies -> Lean 4 over Nat.
 
-Subset: integer literals (with _ and type suffixes), identifiers and paths, field access, `as T`
-(dropped: target is Nat), unary !, binary * / % + - << comparisons && ||, parentheses, calls
-`f(a, b)`, method calls (.checked_*, .saturating_*, .min, .max, .unwrap_or, .into, .is_some...),
-`if c { e } else { e }`, blocks with `let [mut] x = e;`, `x = e;`/`x += e;` (SSA by shadowing),
-`return e;`, `if c { return e; }` chains, `debug_assert!`/comments dropped, tuple results.
+Subset (v2): integer literals, identifiers/paths, field access, `as T` (dropped: target is Nat),
+unary ! & *, binary arithmetic/comparison/logic, calls, method calls (checked_*/saturating_*/min/max/
+unwrap_or/iter/filter/filter_map/count/len/sum/map/then_some/...), closures, struct literals,
+`if`/`else`, `if let Some(x) = e`, blocks with `let`, assignments (SSA by shadowing; mutations inside
+`if` blocks are merged through tuples), closure-valued lets, `return`, `?` on Option/Result-of-unit
+(both modelled as Option), tuples.  `debug_assert*!`/`log_*!` statements and attributes are skipped.
 
 Anything outside the subset raises TranslateError: the caller treats that as a broken obligation
 (the source was restructured), never as silently-OK.
@@ -19,7 +20,7 @@ TOK = re.compile(r"""
     (?P<ws>\s+|//[^\n]*|/\*.*?\*/)
   | (?P<num>0x[0-9a-fA-F_]+|\d[\d_]*)(?P<suf>(?:u|i)(?:8|16|32|64|128|size))?
   | (?P<id>[A-Za-z_][A-Za-z0-9_]*!?)
-  | (?P<op>::|<<=|>>=|<<|>>|<=|>=|==|!=|&&|\|\||\+=|-=|\*=|/=|->|=>|\.\.|[-+*/%<>=!&|.,;:(){}\[\]?#])
+  | (?P<op>::|<<=|>>=|<<|>>|<=|>=|==|!=|&&|\|\||\+=|-=|\*=|/=|->|=>|\.\.|[-+*/%<>=!&|.,;:(){}\[\]?#^])
   | (?P<str>"(?:[^"\\]|\\.)*")
 """, re.X | re.S)
 
@@ -44,15 +45,12 @@ def tokenize(src):
             out.append(('str', m.group('str')))
     return out
 
-# AST: ('num', n) ('var', name) ('bin', op, a, b) ('not', a) ('call', name, [args])
-# ('method', recv, name, [args]) ('field', recv, name) ('if', c, a, b) ('cast', a, ty)
-# ('tuple', [..]) ('block', [stmts], tail)  stmts: ('let', name, e) ('ifret', c, e) ('ret', e)
-# ('ok', e) ('err', e) ('some', e) ('none',) ('unit',)
-
 BINPREC = [
     ['||'], ['&&'], ['==', '!=', '<', '>', '<=', '>='], ['|'], ['^'], ['&'], ['<<', '>>'],
     ['+', '-'], ['*', '/', '%'],
 ]
+SKIP_MACROS = ('debug_assert!', 'debug_assert_eq!', 'assert!', 'log_trace!', 'log_debug!', 'log_info!',
+               'log_error!', 'debug_assert_ne!', 'log_warn!', 'log_given_level!', 'log_gossip!')
 
 class Parser:
     def __init__(self, toks):
@@ -71,7 +69,7 @@ class Parser:
     def expect(self, kind, val=None):
         k, v = self.next()
         if k != kind or (val is not None and v != val):
-            raise TranslateError("expected %s %s, got %s %s (tok %d)" % (kind, val, k, v, self.i))
+            raise TranslateError("expected %s %s, got %s %s (tok %d: ...%s)" % (kind, val, k, v, self.i, self.t[max(0, self.i-6):self.i+3]))
         return v
 
     def expr(self, level=0, nostruct=False):
@@ -81,7 +79,6 @@ class Parser:
         while True:
             k, v = self.peek()
             if k == 'op' and v in BINPREC[level]:
-                # don't treat `<` `>` inside generics: not supported anyway
                 self.next()
                 b = self.expr(level + 1, nostruct)
                 a = ('bin', v, a, b)
@@ -124,6 +121,8 @@ class Parser:
                     continue
                 if k != 'id':
                     raise TranslateError("bad field %s" % v)
+                if self.peek() == ('op', '::'):  # turbofish  .sum::<u64>()
+                    self.next(); self.skip_angle()
                 if self.peek() == ('op', '('):
                     a = ('method', a, v, self.args())
                 else:
@@ -132,6 +131,20 @@ class Parser:
                 a = ('try', a)
             else:
                 return a
+
+    def closure(self):
+        params = []
+        while not self.accept('op', '|'):
+            self.accept('op', '&')
+            self.accept('id', 'mut')
+            params.append(self.expect('id'))
+            if self.accept('op', ':'):
+                # typed closure param: skip type up to , or |
+                while self.peek() not in (('op', ','), ('op', '|')):
+                    self.next()
+            self.accept('op', ',')
+        body = self.expr()
+        return ('closure', params, body)
 
     def primary(self, nostruct):
         k, v = self.next()
@@ -153,16 +166,33 @@ class Parser:
             self.i -= 1
             return self.block()
         if k == 'op' and v == '|':
-            params = []
-            while not self.accept('op', '|'):
-                self.accept('op', '&')
-                self.accept('id', 'mut')
-                params.append(self.expect('id'))
-                self.accept('op', ',')
+            return self.closure()
+        if k == 'op' and v == '||':
             body = self.expr()
-            return ('closure', params, body)
+            return ('closure', [], body)
         if k == 'id':
+            if v == 'move' and self.peek() == ('op', '|'):
+                self.next(); return self.closure()
             if v == 'if':
+                if self.accept('id', 'let'):
+                    ctor = self.expect('id')
+                    self.expect('op', '(')
+                    self.accept('id', 'ref'); self.accept('id', 'mut')
+                    if self.peek() == ('op', '('):
+                        self.next(); names = []
+                        while not self.accept('op', ')'):
+                            names.append(self.expect('id')); self.accept('op', ',')
+                        pat = tuple(names)
+                    else:
+                        pat = self.expect('id')
+                    self.expect('op', ')')
+                    self.expect('op', '=')
+                    e = self.expr(nostruct=True)
+                    a = self.block()
+                    b = ('unit',)
+                    if self.accept('id', 'else'):
+                        b = self.primary(nostruct) if self.peek() == ('id', 'if') else self.block()
+                    return ('iflet', ctor, pat, e, a, b)
                 c = self.expr(nostruct=True)
                 a = self.block()
                 if self.accept('id', 'else'):
@@ -175,12 +205,17 @@ class Parser:
                 return ('if', c, a, b)
             name = v
             while self.accept('op', '::'):
+                if self.peek() == ('op', '<'):
+                    self.skip_angle(); continue
                 name += '::' + self.expect('id')
             if self.peek() == ('op', '('):
                 args = self.args()
                 if name in ('Ok', 'Err', 'Some'):
                     return (name.lower(), args[0] if args else ('unit',))
                 return ('call', name, args)
+            if (not nostruct) and self.peek() == ('op', '{') and re.match(r'[A-Z]', name.split('::')[-1]) \
+                    and not re.fullmatch(r'[A-Z_0-9]+', name.split('::')[-1]):
+                return self.struct_lit(name)
             if name == 'None':
                 return ('none',)
             if name == 'true':
@@ -190,20 +225,48 @@ class Parser:
             return ('var', name)
         raise TranslateError("unexpected token %s %s" % (k, v))
 
+    def struct_lit(self, name):
+        self.expect('op', '{')
+        fields = []
+        while not self.accept('op', '}'):
+            skip = False
+            while self.accept('op', '#'):
+                start = self.i
+                self.skip_brackets()
+                attr = ' '.join(str(x[1]) for x in self.t[start:self.i])
+                if 'cfg' in attr and ('test' in attr or 'fuzzing' in attr) and 'not' not in attr and '_test_utils' not in attr:
+                    skip = True
+            fname = self.expect('id')
+            if self.accept('op', ':'):
+                e = self.expr()
+            else:
+                e = ('var', fname)
+            self.accept('op', ',')
+            if not skip:
+                fields.append((fname, e))
+        return ('struct', name, fields)
+
     def block(self):
         self.expect('op', '{')
         stmts = []
         tail = None
         while not self.accept('op', '}'):
             k, v = self.peek()
-            if k == 'id' and v in ('debug_assert!', 'debug_assert_eq!', 'assert!', 'log_trace!',
-                                   'log_debug!', 'log_info!', 'log_error!', 'debug_assert_ne!'):
+            if k == 'id' and v in SKIP_MACROS:
                 self.next()
                 self.skip_parens()
                 self.accept('op', ';')
                 continue
-            if k == 'op' and v == '#':  # attribute
-                self.next(); self.skip_brackets(); continue
+            if k == 'op' and v == '#':  # attribute on a statement: `#[cfg(debug_assertions)] if ... {}`
+                self.next()
+                start = self.i
+                self.skip_brackets()
+                attr = ' '.join(str(x[1]) for x in self.t[start:self.i])
+                if 'debug_assertions' in attr:
+                    # skip the following statement (debug-only self checks)
+                    e = self.expr()
+                    self.accept('op', ';')
+                continue
             if k == 'id' and v == 'let':
                 self.next()
                 self.accept('id', 'mut')
@@ -230,7 +293,6 @@ class Parser:
                 self.accept('op', ';')
                 stmts.append(('ret', e))
                 continue
-            # assignment?
             if k == 'id' and self.peek(1)[0] == 'op' and self.peek(1)[1] in ('=', '+=', '-=', '*=', '/='):
                 name = self.next()[1]
                 op = self.next()[1]
@@ -238,7 +300,7 @@ class Parser:
                 self.expect('op', ';')
                 if op != '=':
                     e = ('bin', op[0], ('var', name), e)
-                stmts.append(('let', name, e))
+                stmts.append(('assign', name, e))
                 continue
             e = self.expr()
             if self.accept('op', ';'):
@@ -246,7 +308,6 @@ class Parser:
             elif self.peek() == ('op', '}'):
                 tail = e
             else:
-                # block-like expression statement (if ... {} without ;)
                 stmts.append(('expr', e))
         return ('block', stmts, tail)
 
@@ -264,8 +325,18 @@ class Parser:
         d = 1
         while d:
             k, v = self.next()
+            if k == 'eof': raise TranslateError("unbalanced")
             if (k, v) == ('op', '['): d += 1
             if (k, v) == ('op', ']'): d -= 1
+    def skip_angle(self):
+        self.expect('op', '<')
+        d = 1
+        while d:
+            k, v = self.next()
+            if k == 'eof': raise TranslateError("unbalanced")
+            if (k, v) == ('op', '<'): d += 1
+            if (k, v) == ('op', '>'): d -= 1
+            if (k, v) == ('op', '>>'): d -= 2
     def skip_type(self):
         d = 0
         while True:
@@ -294,28 +365,50 @@ def parse_block(src):
 # ---------------------------------------------------------------------------------------------
 # Emission
 
+def ast_text(a):
+    """rough text of an AST (for width heuristics)"""
+    if isinstance(a, tuple): return ' '.join(ast_text(x) for x in a)
+    if isinstance(a, list): return ' '.join(ast_text(x) for x in a)
+    return str(a)
+
+def has_iter(a):
+    return isinstance(a, tuple) and ((a[0] == 'method' and (a[2] in ('iter', 'into_iter') or has_iter(a[1]))))
+
+LEAN_KW = {'local', 'end', 'from', 'at', 'have', 'show', 'fun', 'open', 'in', 'then', 'do', 'by', 'with', 'where',
+           'instance', 'section', 'namespace', 'variable', 'theorem', 'def', 'macro', 'syntax', 'prefix', 'export', 'import'}
+def lname(n):
+    return n + '_' if n in LEAN_KW else n
+
 class Emitter:
-    """env: maps Rust names/paths to Lean terms; unknown upper-case names map to themselves
-    (constants from Generated/Consts); calls map through `funs`."""
-    def __init__(self, env=None, funs=None, methods=None, fields=None, errmap=None):
+    """env: Rust names/paths -> Lean terms; unknown UPPER_CASE names map to themselves (generated
+    constants); calls go through `funs`; `methods`/`fields` override method / field translation.
+    `ret`: how `return e` / the tail is wrapped: None (plain), or 'option' (Ok/Some -> some, Err -> none)."""
+    def __init__(self, env=None, funs=None, methods=None, fields=None, errmap=None, result_as_option=False,
+                 narrow=lambda txt: 'feerate' in txt):
         self.env = dict(env or {})
         self.funs = dict(funs or {})
         self.methods = dict(methods or {})
         self.fields = dict(fields or {})
         self.errmap = errmap
+        self.result_as_option = result_as_option
+        self.narrow = narrow   # receiver text -> True when the receiver is a u32
+        self.locals = set()
 
     def var(self, name):
         if name in self.env:
             return self.env[name]
         base = name.split('::')[-1]
+        if name in ('u32::MAX', 'core::u32::MAX'): return 'U32_MAX'
+        if name in ('u64::MAX', 'core::u64::MAX'): return 'U64_MAX'
+        if name in ('i64::MAX',): return 'I64_MAX'
         if base in self.env:
             return self.env[base]
-        if re.fullmatch(r'[A-Z_][A-Z0-9_]*', base):
+        if re.fullmatch(r'_?[A-Z][A-Z0-9_]*', base):
             return base
         if name.startswith('LocalHTLCFailureReason::') or (self.errmap and name.split('::')[0] in self.errmap):
             return '.' + base[0].lower() + base[1:]
         if re.fullmatch(r'[a-z_][a-z0-9_]*', name):
-            return name
+            return lname(name)
         raise TranslateError("unknown name %s" % name)
 
     def e(self, a):
@@ -330,14 +423,9 @@ class Emitter:
             op = a[1]
             l, r = self.e(a[2]), self.e(a[3])
             if op in ('<', '>', '<=', '>=', '==', '!='):
-                lop = {'==': '==', '!=': '!='}.get(op, op)
                 return '(decide (%s %s %s))' % (l, {'==': '=', '!=': '≠'}.get(op, op), r)
-            if op == '-':
-                return '(%s - %s)' % (l, r)
-            if op == '<<':
-                return '(%s * 2 ^ %s)' % (l, r)
-            if op == '>>':
-                return '(%s / 2 ^ %s)' % (l, r)
+            if op == '<<': return '(%s * 2 ^ %s)' % (l, r)
+            if op == '>>': return '(%s / 2 ^ %s)' % (l, r)
             return '(%s %s %s)' % (l, op, r)
         if k == 'field':
             key = a[2]
@@ -345,132 +433,262 @@ class Emitter:
             if recv[0] == 'var' and (recv[1] + '.' + key) in self.fields:
                 return self.fields[recv[1] + '.' + key]
             if key in self.fields:
-                return '(%s %s)' % (self.fields[key], self.e(recv))
+                f = self.fields[key]
+                return f(self.e(recv)) if callable(f) else '(%s %s)' % (f, self.e(recv))
             return '%s.%s' % (self.e(recv), key)
         if k == 'call':
             name = a[1]
             base = name.split('::')[-1]
+            if name in ('cmp::max', 'core::cmp::max', 'max'): return '(Nat.max %s %s)' % tuple(self.e(x) for x in a[2])
+            if name in ('cmp::min', 'core::cmp::min', 'min'): return '(Nat.min %s %s)' % tuple(self.e(x) for x in a[2])
             args = [self.e(x) for x in a[2]]
-            if name in ('cmp::max', 'core::cmp::max', 'max'): return '(Nat.max %s %s)' % tuple(args)
-            if name in ('cmp::min', 'core::cmp::min', 'min'): return '(Nat.min %s %s)' % tuple(args)
+            if base in self.locals:
+                return '(%s %s)' % (base, ' '.join(args)) if args else base
             if base in self.funs:
                 f = self.funs[base]
                 return f(args) if callable(f) else '(%s %s)' % (f, ' '.join(args))
             raise TranslateError("unknown function %s" % name)
         if k == 'method':
-            recv, name, args = self.e(a[1]), a[2], [self.e(x) for x in a[3]]
-            if name in self.methods:
-                f = self.methods[name]
-                return f(recv, args)
-            if name in ('saturating_sub',): return '(%s - %s)' % (recv, args[0])
-            if name in ('saturating_add', 'saturating_mul'):
-                raise TranslateError("saturating_add/mul need a width; give a methods entry")
-            if name == 'min': return '(Nat.min %s %s)' % (recv, args[0])
-            if name == 'max': return '(Nat.max %s %s)' % (recv, args[0])
-            if name in ('into', 'clone', 'to_sat', 'to_wu'): return recv
-            if name == 'checked_sub': return '(chkSub %s %s)' % (recv, args[0])
-            if name == 'checked_add': return '(chkAdd64 %s %s)' % (recv, args[0])
-            if name == 'checked_mul': return '(chkMul64 %s %s)' % (recv, args[0])
-            if name == 'checked_div': return '(chkDiv %s %s)' % (recv, args[0])
-            if name == 'unwrap_or': return '(Option.getD %s %s)' % (recv, args[0])
-            if name in ('and_then', 'map') and a[3] and a[3][0][0] == 'closure':
-                cl = a[3][0]
-                fn = '(fun %s => %s)' % (' '.join(cl[1]), self.e(cl[2]))
-                return '(%s %s %s)' % ('Option.bind' if name == 'and_then' else 'Option.map', recv, fn) if name == 'and_then' else '(Option.map %s %s)' % (fn, recv)
-            if name == 'unwrap': return '(Option.getD %s 0)' % recv
-            if name == 'is_some': return '(Option.isSome %s)' % recv
-            if name == 'is_none': return '(Option.isNone %s)' % recv
-            raise TranslateError("unknown method %s" % name)
+            return self.method(a)
         if k == 'if':
             return '(if %s then %s else %s)' % (self.e(a[1]), self.e(a[2]), self.e(a[3]))
+        if k == 'iflet':
+            return self.iflet_expr(a)
         if k == 'tuple':
             return '(' + ', '.join(self.e(x) for x in a[1]) + ')'
-        if k == 'ok': return '(.ok %s)' % self.e(a[1])
-        if k == 'err': return '(.error %s)' % self.e(a[1])
+        if k == 'ok': return ('(some %s)' if self.result_as_option else '(.ok %s)') % self.e(a[1])
+        if k == 'err': return 'none' if self.result_as_option else '(.error %s)' % self.e(a[1])
         if k == 'some': return '(some %s)' % self.e(a[1])
         if k == 'none': return 'none'
         if k == 'closure':
-            return '(fun %s => %s)' % (' '.join(a[1]), self.e(a[2]))
+            return '(fun %s => %s)' % (' '.join(lname(x) for x in a[1]) if a[1] else '_', self.e(a[2]))
+        if k == 'struct':
+            return '({ %s : %s })' % (', '.join('%s := %s' % (f, self.e(x)) for f, x in a[2]), a[1].split('::')[-1])
         if k == 'try':
-            raise TranslateError("`?` must be handled at statement level")
+            raise TranslateError("`?` must be handled at statement level (let x = e?;)")
         if k == 'block':
             return self.block(a)
         raise TranslateError("cannot emit %s" % (a,))
 
-    def block(self, b, cont=None):
-        """Emit a block as nested lets; `if c { return e }` becomes if-then-else over the rest."""
-        stmts, tail = b[1], b[2]
-        return self._stmts(list(stmts), tail)
+    def method(self, a):
+        name = a[2]
+        if name in ('iter', 'into_iter', 'clone', 'into', 'to_sat', 'to_wu', 'copied', 'cloned', 'as_ref', 'rev_placeholder'):
+            return self.e(a[1])
+        if name == 'unwrap_or' and a[1][0] == 'method' and a[1][2] == 'try_into':
+            return '(Nat.min %s %s)' % (self.e(a[1][1]), self.e(a[3][0]))
+        recv = self.e(a[1])
+        rtxt = ast_text(a[1])
+        if name in self.methods:
+            return self.methods[name](recv, [self.e(x) for x in a[3]])
+        w = '32' if self.narrow(rtxt) else '64'
+        def arg(i): return self.e(a[3][i])
+        if name == 'saturating_sub': return '(%s - %s)' % (recv, arg(0))
+        if name == 'saturating_add': return '(satAdd%s %s %s)' % (w, recv, arg(0))
+        if name == 'saturating_mul': return '(satMul%s %s %s)' % (w, recv, arg(0))
+        if name == 'checked_sub': return '(chkSub %s %s)' % (recv, arg(0))
+        if name == 'checked_add': return '(chkAdd%s %s %s)' % (w, recv, arg(0))
+        if name == 'checked_mul': return '(chkMul%s %s %s)' % (w, recv, arg(0))
+        if name == 'checked_div': return '(chkDiv %s %s)' % (recv, arg(0))
+        if name == 'min': return '(Nat.min %s %s)' % (recv, arg(0))
+        if name == 'max': return '(Nat.max %s %s)' % (recv, arg(0))
+        if name == 'unwrap_or':
+            if a[1][0] == 'method' and a[1][2] == 'try_into':
+                return '(Nat.min %s %s)' % (self.e(a[1][1]), arg(0))
+            return '(Option.getD %s %s)' % (recv, arg(0))
+        if name == 'unwrap': return '(Option.getD %s 0)' % recv
+        if name == 'ok_or': return recv          # Result<_, ()> modelled as Option
+        if name == 'is_some': return '(Option.isSome %s)' % recv
+        if name == 'is_none': return '(Option.isNone %s)' % recv
+        if name == 'then_some': return '(if %s then some %s else none)' % (recv, arg(0))
+        if name in ('count', 'len'): return '(List.length %s)' % recv
+        if name == 'sum': return '(List.sum %s)' % recv
+        if name == 'is_empty': return '(List.isEmpty %s)' % recv
+        if name in ('filter', 'filter_map', 'map', 'and_then', 'any', 'all') and a[3] and a[3][0][0] == 'closure':
+            fn = self.e(a[3][0])
+            if name == 'filter': return '(List.filter %s %s)' % (fn, recv)
+            if name == 'filter_map': return '(List.filterMap %s %s)' % (fn, recv)
+            if name == 'any': return '(List.any %s %s)' % (recv, fn)
+            if name == 'all': return '(List.all %s %s)' % (recv, fn)
+            if name == 'and_then': return '(Option.bind %s %s)' % (recv, fn)
+            if name == 'map':
+                return ('(List.map %s %s)' if has_iter(a[1]) else '(Option.map %s %s)') % (fn, recv)
+        raise TranslateError("unknown method %s" % name)
+
+    # ---- statements -----------------------------------------------------------------------------
+    def block(self, b):
+        return self._stmts(list(b[1]), b[2])
+
+    def pat(self, name):
+        return lname(name) if isinstance(name, str) else '(' + ', '.join(lname(n) for n in name) + ')'
+
+    def _returns(self, b):
+        """True if block b always ends in `return` (possibly after lets / nested returning ifs)."""
+        if b[0] != 'block': return False
+        stmts = b[1]
+        return bool(stmts) and stmts[-1][0] == 'ret' and b[2] is None
+
+    def _contains_ret(self, node):
+        if isinstance(node, tuple):
+            if node and node[0] == 'ret': return True
+            if node and node[0] == 'closure': return False
+            return any(self._contains_ret(x) for x in node)
+        if isinstance(node, list):
+            return any(self._contains_ret(x) for x in node)
+        return False
+
+    def _assigned(self, b):
+        """names assigned (not let-declared) inside block b, in first-assignment order"""
+        out = []
+        declared = set()
+        def walk(blk, declared):
+            if blk == ('unit',) or blk[0] != 'block':
+                if isinstance(blk, tuple) and blk and blk[0] in ('if', 'iflet'):
+                    walk_if(blk, declared)
+                return
+            declared = set(declared)
+            for s in blk[1]:
+                if s[0] == 'let':
+                    for n in ([s[1]] if isinstance(s[1], str) else s[1]): declared.add(n)
+                elif s[0] == 'assign':
+                    if s[1] not in declared and s[1] not in out: out.append(s[1])
+                elif s[0] == 'expr' and s[1][0] in ('if', 'iflet'):
+                    walk_if(s[1], declared)
+            if blk[2] is not None and blk[2][0] in ('if', 'iflet'):
+                walk_if(blk[2], declared)
+        def walk_if(node, declared):
+            if node[0] == 'if':
+                walk(node[2], declared); walk(node[3], declared)
+            else:
+                d2 = set(declared)
+                for n in ([node[2]] if isinstance(node[2], str) else node[2]): d2.add(n)
+                walk(node[4], d2); walk(node[5], declared)
+        walk(b, declared)
+        return out
+
+    _TAGS = {'num','var','bin','not','call','method','field','if','iflet','cast','tuple','block','let','assign','ret',
+             'expr','ok','err','some','none','unit','bool','closure','struct','try','raw'}
+    def _is_ast(self, x):
+        return isinstance(x, tuple) and len(x) > 0 and isinstance(x[0], str) and x[0] in self._TAGS
+    def _hoist(self, ex, acc):
+        """replace `e?` sub-expressions (outside closures / nested blocks / ifs) by fresh variables"""
+        if not self._is_ast(ex): return ex
+        if ex[0] in ('closure', 'block', 'if', 'iflet', 'raw', 'var', 'num', 'bool', 'unit', 'none'): return ex
+        if ex[0] == 'try':
+            inner = self._hoist(ex[1], acc)
+            v = 'q__%d' % (len(acc) + self._fresh)
+            acc.append((v, inner))
+            return ('var', v)
+        out = [ex[0]]
+        for ch in ex[1:]:
+            if self._is_ast(ch): out.append(self._hoist(ch, acc))
+            elif isinstance(ch, list):
+                out.append([self._hoist(c, acc) if self._is_ast(c) else
+                            ((c[0], self._hoist(c[1], acc)) if isinstance(c, tuple) and len(c) == 2 and self._is_ast(c[1]) else c)
+                            for c in ch])
+            else: out.append(ch)
+        return tuple(out)
+
+    _fresh = 0
+    def _wrap_try(self, acc, body):
+        for v, inner in reversed(acc):
+            body = '(match %s with\n  | none => none\n  | some %s => %s)' % (self.e(inner), v, body)
+        return body
 
     def _stmts(self, stmts, tail):
+        # hoist `?` out of the first statement / the tail
+        if stmts and stmts[0][0] in ('let', 'assign', 'ret') and not (stmts[0][0] != 'ret' and stmts[0][2][0] == 'try'):
+            s0 = stmts[0]
+            acc = []
+            ex = self._hoist(s0[-1], acc)
+            if acc:
+                self._fresh += len(acc)
+                new = s0[:-1] + (ex,)
+                return self._wrap_try(acc, self._stmts([new] + stmts[1:], tail))
+        if not stmts and tail is not None and tail[0] not in ('if', 'iflet', 'block'):
+            acc = []
+            ex = self._hoist(tail, acc)
+            if acc:
+                self._fresh += len(acc)
+                return self._wrap_try(acc, self.e(ex))
         if not stmts:
             if tail is None:
                 return '()'
+            if tail[0] in ('if', 'iflet') and self._assigned(('block', [('expr', tail)], None)):
+                raise TranslateError("tail if with mutation")
             return self.e(tail)
         s = stmts[0]
         rest = stmts[1:]
-        if s[0] == 'let':
+        if s[0] in ('let', 'assign'):
             name, ex = s[1], s[2]
-            # `let x = e?;` over Option / Except
+            if ex[0] == 'closure' and isinstance(name, str):
+                self.locals.add(name)
+                return '(let %s := %s;\n  %s)' % (name, self.e(ex), self._stmts(rest, tail))
             if ex[0] == 'try':
                 inner = self.e(ex[1])
-                pat = name if isinstance(name, str) else '(' + ', '.join(name) + ')'
-                return '(match %s with\n  | none => none\n  | some %s => %s)' % (inner, pat, self._stmts(rest, tail))
-            pat = name if isinstance(name, str) else '(' + ', '.join(name) + ')'
-            return '(let %s := %s;\n  %s)' % (pat, self.e(ex), self._stmts(rest, tail))
+                return '(match %s with\n  | none => none\n  | some %s => %s)' % (inner, self.pat(name), self._stmts(rest, tail))
+            return '(let %s := %s;\n  %s)' % (self.pat(name), self.e(ex), self._stmts(rest, tail))
         if s[0] == 'ret':
             return self.e(s[1])
         if s[0] == 'expr':
             ex = s[1]
-            if ex[0] == 'if':
-                c, a, b = ex[1], ex[2], ex[3]
-                a_ret = self._always_returns(a)
-                if a_ret and b == ('unit',):
-                    return '(if %s then %s else\n  %s)' % (self.e(c), self._stmts(list(a[1]), a[2]), self._stmts(rest, tail))
-                if a_ret and self._always_returns(b):
-                    return '(if %s then %s else %s)' % (self.e(c), self._stmts(list(a[1]), a[2]), self._stmts(list(b[1]), b[2]))
-                # conditional reassignments: `if c { x = e; }`  → let x := if c then e else x
-                assigns_a = self._pure_assigns(a)
-                assigns_b = self._pure_assigns(b) if b != ('unit',) else {}
-                if assigns_a is not None and assigns_b is not None:
-                    names = list(dict.fromkeys(list(assigns_a) + list(assigns_b)))
-                    out = self._stmts(rest, tail)
-                    cs = self.e(c)
-                    # all assignments evaluated with the pre-state: emit via fresh tuple
-                    lets = ''
-                    for n in names:
-                        ea = self.e(assigns_a[n]) if n in assigns_a else n
-                        eb = self.e(assigns_b[n]) if n in assigns_b else n
-                        lets += '(let %s__n := if %s then %s else %s;\n  ' % (n, cs, ea, eb)
-                    for n in names:
-                        lets += '(let %s := %s__n;\n  ' % (n, n)
-                    return lets + out + ')' * (2 * len(names))
-                raise TranslateError("if-statement outside subset")
+            if ex[0] in ('if', 'iflet'):
+                return self._if_stmt(ex, rest, tail)
+            if ex[0] == 'try':   # `foo()?;`
+                return '(match %s with\n  | none => none\n  | some _ => %s)' % (self.e(ex[1]), self._stmts(rest, tail))
             raise TranslateError("expression statement outside subset: %s" % (ex[0],))
         raise TranslateError("statement outside subset: %s" % (s[0],))
 
-    def _always_returns(self, b):
-        if b[0] != 'block':
-            return False
-        stmts, tail = b[1], b[2]
-        if stmts and stmts[-1][0] == 'ret' and tail is None:
-            # all earlier stmts must be lets
-            return all(s[0] in ('let',) or (s[0] == 'expr' and s[1][0] == 'if') for s in stmts[:-1])
-        return False
+    def _branch(self, blk, result):
+        """emit block `blk` (no returns inside) followed by the expression `result`"""
+        if blk == ('unit',):
+            return result
+        if blk[0] in ('if', 'iflet'):  # else-if chain
+            return self._if_stmt(blk, [], None, result)
+        stmts = list(blk[1])
+        if blk[2] is not None:
+            if blk[2][0] in ('if', 'iflet'):
+                stmts.append(('expr', blk[2]))   # unit-valued trailing `if` used for its effects
+            else:
+                raise TranslateError("value-producing block used as a statement")
+        return self._stmts(stmts + [('ret', ('raw', result))], None)
 
-    def _pure_assigns(self, b):
-        if b[0] != 'block' or b[2] is not None:
-            return None
-        out = {}
-        for s in b[1]:
-            if s[0] != 'let' or not isinstance(s[1], str):
-                return None
-            if s[1] in out:
-                return None
-            out[s[1]] = s[2]
-        # single-assignment only, and rhs must not depend on another assigned var of this block
-        return out
+    def _if_stmt(self, ex, rest, tail, result=None):
+        if ex[0] == 'if':
+            c, a, b = ex[1], ex[2], ex[3]
+            head = lambda A, B: '(if %s then %s else\n  %s)' % (self.e(c), A, B)
+        else:
+            ctor, pat, scrut, a, b = ex[1], ex[2], ex[3], ex[4], ex[5]
+            if ctor not in ('Some', 'Ok'): raise TranslateError("if let %s" % ctor)
+            head = lambda A, B: '(match %s with\n  | some %s => %s\n  | none => %s)' % (self.e(scrut), self.pat(pat), A, B)
+        a_ret = self._returns(a)
+        b_ret = b != ('unit',) and (self._returns(b) if b[0] == 'block' else False)
+        if result is None:
+            if a_ret and b == ('unit',):
+                return head(self._stmts(list(a[1]), a[2]), self._stmts(rest, tail))
+            if a_ret and b_ret:
+                return head(self._stmts(list(a[1]), a[2]), self._stmts(list(b[1]), b[2]))
+        if self._contains_ret(a) or self._contains_ret(b):
+            raise TranslateError("mixed return/fallthrough in if-statement: outside subset")
+        names = self._assigned(('block', [('expr', ex)], None))
+        if not names:
+            # no effect (e.g. only debug asserts inside)
+            return self._stmts(rest, tail) if result is None else result
+        tup = names[0] if len(names) == 1 else '(' + ', '.join(names) + ')'
+        merged = head(self._branch(a, tup), self._branch(b, tup))
+        if result is not None:
+            return '(let %s := %s;\n  %s)' % (tup, merged, result)
+        return '(let %s := %s;\n  %s)' % (tup, merged, self._stmts(rest, tail))
 
+    def iflet_expr(self, a):
+        ctor, pat, scrut, x, y = a[1], a[2], a[3], a[4], a[5]
+        return '(match %s with\n  | some %s => %s\n  | none => %s)' % (self.e(scrut), self.pat(pat), self.e(x), self.e(y))
+
+# 'raw' AST node: an already-emitted Lean expression
+_orig_e = Emitter.e
+def _e(self, a):
+    if a[0] == 'raw': return a[1]
+    return _orig_e(self, a)
+Emitter.e = _e
 
 # ---------------------------------------------------------------------------------------------
 # Source extraction helpers
@@ -529,7 +747,6 @@ def find_fn(src, name, after=None):
         j += 1
     params = src[i+1:j]
     k = src.index('{', j)
-    # where clauses / return type
     ret = src[j+1:k]
     end = match_brace(src, k)
     return params, ret, src[k:end]
@@ -538,7 +755,7 @@ def parse_params(params):
     out = []
     d = 0
     cur = ''
-    for c in params:
+    for c in strip_comments(params):
         if c in '<([': d += 1
         if c in '>)]': d -= 1
         if c == ',' and d == 0:
